@@ -117,6 +117,15 @@ class StopShrink(BaseException):
     time budget; the most recent failing case recorded in `last` is then reported."""
 
 
+def _is_flaky(e):
+    try:
+        from hypothesis.errors import Flaky
+
+        return isinstance(e, Flaky)
+    except Exception:  # noqa: BLE001
+        return False
+
+
 def _check_shrink_budget(last):
     if "t0" in last and time.time() > last["t0"] + SHRINK_BUDGET_S:
         last["stopped"] = True
@@ -171,8 +180,11 @@ def _run_given(clause, ctx, seed, n, out):
     try:
         test()
     except BaseException as e:  # noqa: BLE001
-        # Hypothesis may wrap the StopShrink abort (e.g. into FlakyStrategyDefinition): recognised by last["stopped"]
-        if "v" not in last or not (isinstance(e, (Violation, StopShrink)) or last.get("stopped")):
+        # Hypothesis may wrap the StopShrink abort (e.g. into FlakyStrategyDefinition): recognised by last["stopped"].
+        # A Flaky* error after a recorded Violation means the failure did not repeat identically when Hypothesis replayed the case:
+        # the violation was observed on real outputs, it merely depends on what ran before (a cache, a shared returned object);
+        # it is reported with the preceding cases as prefix.
+        if "v" not in last or not (isinstance(e, (Violation, StopShrink)) or last.get("stopped") or _is_flaky(e)):
             raise
         v = last["v"]
         prefix = [c for c in ctx.recent if c is not last["case"]]
@@ -196,7 +208,7 @@ def _run_stateful(clause, ctx, seed, n, steps, out):
     try:
         run_state_machine_as_test(hseed(seed)(machine), settings=_settings(n, steps))
     except BaseException as e:  # noqa: BLE001
-        if "v" not in last or not (isinstance(e, (Violation, StopShrink)) or last.get("stopped")):
+        if "v" not in last or not (isinstance(e, (Violation, StopShrink)) or last.get("stopped") or _is_flaky(e)):
             raise
         v = last["v"]
         prefix = [c for c in ctx.recent if c is not last["case"]]
